@@ -508,7 +508,15 @@ func (j *c05Job) RunUnit(i int, c *run.Ctx) {
 	}
 	violated := false
 	exploreHistory := func(hist []int) {
-		st := sched.Explore(bound, 20000, func(prefix []int) *sched.Exec {
+		if c.Expired() {
+			c.Cut = true // tier deadline: the rest of this unit is not explored (reported as not exhaustive)
+			return
+		}
+		b := bound
+		if b >= 2 && len(hist) > 3 {
+			b = 1 // two pool deviations only for histories of length <=3
+		}
+		st := sched.Explore(b, 20000, func(prefix []int) *sched.Exec {
 			c.Tick()
 			x, ok, detail := j.c05Run(pathText, acc, hist, refs, prefix)
 			c.Evals++
@@ -649,7 +657,7 @@ func init() {
 		},
 		Bounds: map[string]string{
 			"quick":    "paths: <=2 steps over the 50-step alphabet (+ functions after <=1 step), every atom as $[?()] and $.a[?()], every A&&B / A||B over 24 atoms, 13 function filters (about 4.6k); alphabet: calls on 4 documents (first success, same-shape documents with another outcome, other outcome classes) + X (unrelated Retrieve cycling both pools) + W (scribble on the last result and append to every result held, within its capacity); M (the caller edits a document object in place into another document of the same shape, after a call on it and before another); all histories of length <=3 in plain mode and <=2 in accessor mode (accessor mode: paths of <=1 step; all ladder paths in the thorough tier); pool answers <=1 deviation; for the single-step paths and the 24 reduced atoms also all histories of length 4..6 over 3 documents + X with default pool answers",
-			"thorough": "5 documents, histories of length <=4 (accessor mode <=3), pool answers <=1 deviation (<=2 for paths of <=1 step); long histories up to length 8",
+			"thorough": "5 documents, histories of length <=4 (accessor mode <=3), pool answers <=1 deviation (<=2 for paths of <=1 step and histories of length <=3); long histories up to length 8",
 		},
 		New: newC05,
 		Replay: func(cs map[string]interface{}) (bool, string) {
